@@ -8,6 +8,102 @@ ALL = ["C%02d" % i for i in range(1, 21)]
 BASE_NOTE = ("Trusted: Coq 8.16.1 kernel incl. its VM (vm_compute; no native_compute); no axioms (Print Assumptions closed, checked "
              "every run); tools/rs2v.py (fail-closed translator), tools/check.py+vlib.py, the Rust harness and its mocks; ")
 CLAIMED = {
+    "C01": dict(
+        text="Coq theorems: for every configuration Builder::init accepts, all 8 orientations, both build profiles, batch on/off, and EVERY finite "
+             "program of drawing calls (set_pixel(s) in bounds; draw_iter / fill_contiguous / fill_solid / clear with arbitrary arguments) interleaved "
+             "with set_orientation, the write history the reference MIPI-DCS controller decodes from the driver's traffic equals — as an ordered "
+             "list — the specification 'rotate clockwise, mirror, shift' of each drawn pixel (induction over programs; central geometric lemma "
+             "by lia per orientation; last-write-wins and 'no other cell changes' are corollaries); lifted to SPI / parallel pins by the C06 / C07 "
+             "transparency theorems. Correspondence: random programs on built-in and external models 1x1..65535x65535, traces decoded by the same controller.",
+        note="hand-written model of Display / DrawTarget (src/lib.rs, src/graphics.rs, src/batch.rs); Oracle/Controller.v and Oracle/DrawSpec.v are the specification.",
+        tech="machine-checked proof in Coq (induction over programs, lia per orientation) + differential correspondence", ref="DESIGN.md §5 C01"),
+    "C02": dict(
+        text="Coq theorems: DrawTarget calls with arbitrary i32 coordinates / any valid rectangle never panic or error in either build profile, every "
+             "written cell lies inside the configured panel window, the controller flags no window outside the framebuffer, out-of-bounds pixels are "
+             "discarded (the call equals the call on the filtered input), invisible rectangles emit nothing (intersection characterised as interval "
+             "clipping for all valid rectangles). Correspondence: coordinate pool incl. i32 extremes, rectangles straddling every edge, debug + release, batch on/off.",
+        note="model after the fix: commit for F4 (draw_iter filters by bounding box); embedded-graphics Rectangle modelled from its source (Model/Rect.v).",
+        tech="machine-checked proof in Coq + differential correspondence", ref="DESIGN.md §5 C02"),
+    "C03": dict(
+        text="Coq theorems: RowIterator / BlockIterator modelled branch by branch; for any in-range pixel list the emitted blocks flatten back to the "
+             "input stream (nothing dropped incl. the trailing partial batch, duplicated, recoloured or reordered), every block is a well-formed "
+             "rectangle within capacity, no expect() can fire, Debug = Release; hence the controller's write history after batched draw_iter equals "
+             "that of set_pixel one by one, in order (induction over streams with two nested accumulators). Correspondence: stream shapes aimed at the flush points.",
+        note="hand-written model of src/batch.rs (Model/Batch.v), capacities regenerated from the source (Gen/Consts.v); heapless::Vec push/extend semantics modelled.",
+        tech="machine-checked proof in Coq (induction with accumulator invariants) + differential correspondence", ref="DESIGN.md §5 C03"),
+    "C04": dict(
+        text="Coq theorems: for every valid rectangle with < 2^32 points, any display size, any colour-stream length: no u32 overflow in the skip "
+             "arithmetic, the colours handed to the controller are exactly those of the visible points row by row (take/skip iterator = row slices of "
+             "the stream), colour k stays on point k, surplus ignored, short streams just end; decoded placement = specification. The 16-bit-pointer "
+             "helper variants are exercised by the correspondence (source-extracted). Correspondence: rectangles in all edge/corner positions, index-encoding colour streams.",
+        note="hand-written model of fill_contiguous / TakeSkip (src/graphics.rs); iterator laziness abstracted to lists (bus-trace equivalent).",
+        tech="machine-checked proof in Coq (list induction, nia) + differential correspondence", ref="DESIGN.md §5 C04"),
+    "C08": dict(
+        text="Coq theorems: every drawing call of every well-formed program emits only (CASET RASET RAMWR PIX)* groups, each burst carries at most "
+             "(fills: exactly) as many pixels as its window holds, windows are well-formed and inside the framebuffer under the current MV, so the "
+             "reference controller flags no anomaly (no pointer wrap); one window per fill. Correspondence: the union of the C01-C04 streams re-judged by the framing recogniser.",
+        note="framing grammar and controller anomalies in Oracle/DrawSpec.v / Oracle/Controller.v.",
+        tech="machine-checked proof in Coq + differential correspondence", ref="DESIGN.md §5 C08"),
+    "C05": dict(
+        text="Coq theorems quantified over the colour components (lia with div/mod equations): Rgb565 -> two bytes most-significant first / one "
+             "16-bit word, Rgb666 -> three left-aligned bytes, each decoding back to the drawn colour; every raw value is such a composition; "
+             "additional exhaustive kernel sweeps of all 65,536 / 262,144 raw values against shift-and-mask checkers; COLMOD byte of the colour type "
+             "= the byte the generated init programs announce; a solid fill puts the same bytes on the SPI wire as the per-pixel stream. "
+             "Correspondence: boundary + random values word by word, whole-range checksums, COLMOD from real init traces.",
+        note="hand-written model of src/interface.rs conversions (Model/Color.v); raw <-> (r,g,b) storage order of embedded-graphics is exercised, not proved.",
+        tech="machine-checked proof in Coq (lia over div/mod, finite kernel sweeps) + differential correspondence", ref="DESIGN.md §5 C05"),
+    "C06": dict(
+        text="Coq theorems about an explicit-buffer model of SpiInterface, for every buffer length >= one pixel, every stale content, every "
+             "pixel count and u32 repeat count incl. 0: the concatenated writes are exactly the bytes to send, termination (fuel never exhausted), "
+             "write sizes and exact transaction counts, DC low exactly for instruction bytes over any L1 trace (induction). Correspondence on the "
+             "real SpiInterface with recording SPI device / DC pin and an operation budget; the wire oracle runs on the implementation's log.",
+        note="hand-written model of src/interface/spi.rs (Model/Spi.v); bus timing / CS not modelled; buffers of >= 2^32 pixels excluded (as u32 truncation, proved to diverge).",
+        tech="machine-checked proof in Coq (induction on fuel / traces, nia) + differential correspondence", ref="DESIGN.md §5 C06"),
+    "C07": dict(
+        text="Coq theorems: the bus cache invariant (last = Some v -> pins show v) is preserved by set_value over ANY history with ANY single-pin "
+             "failure and either physical effect (induction over histories); every word sent by send_command / send_pixels / send_repeated_pixel "
+             "(incl. cache hits and the strobe-only fast path) is what the Coq sampler reads at the WR rising edge, DC low exactly at the "
+             "instruction, for every L1 trace on 8- and 16-bit buses; exact strobe counts. Correspondence on the real ParallelInterface and "
+             "Generic{8,16}BitBus with recording / failing pins.",
+        note="hand-written model of src/interface/parallel.rs (Model/Parallel.v); set-up/hold timing not modelled.",
+        tech="machine-checked proof in Coq (bit-level lemmas, induction over histories and traces) + differential correspondence with fault injection", ref="DESIGN.md §5 C07"),
+    "C10": dict(
+        text="Coq theorems: for every finite sequence of orientations on a display built with any options, every call returns Ok and sends the "
+             "encoding of the same options with only the orientation replaced (colour/refresh bits preserved: 512-case kernel check), and the "
+             "resulting driver state IS the state of a display freshly built with the last orientation (induction), so every later program "
+             "produces identical traffic; the controller's MADCTL equals the cached one. Correspondence: all 8x8 transitions, random sequences, "
+             "twin displays, decoded pictures.",
+        note="hand-written model of Display::set_orientation (src/lib.rs) after the fix: commit for F1.",
+        tech="machine-checked proof in Coq (induction over orientation sequences) + differential correspondence", ref="DESIGN.md §5 C10"),
+    "C11": dict(
+        text="Coq theorems over the init programs REGENERATED from src/models/*.rs on every run: for every model x interface kind x 128 option "
+             "sets x reset pin (finite kernel computation lifted to all option records) the reference controller ends awake, on, MADCTL = encoding "
+             "of the options = the value returned to Display, COLMOD of the colour type, inversion as chosen, no pixel data, >= 120 ms after the "
+             "last sleep-out; unsupported kinds are refused before any model command; the baseline support matrix stays supported. Correspondence: "
+             "real Builder::init traces equal the generated programs' denotation and pass the same checker.",
+        note="tools/rs2v.py translates the init bodies (fail-closed); Oracle/Controller.v + Oracle/InitSpec.v are the specification; virtual time.",
+        tech="machine-checked proof in Coq over a translator-regenerated model (vm_compute + forallb_forall) + differential correspondence", ref="DESIGN.md §5 C11"),
+    "C13": dict(
+        text="Coq theorems: over every finite history of Display operations (sleep, wake, all drawing calls with arbitrary arguments, "
+             "set_orientation, scroll, tearing) is_sleeping equals the reference controller's sleep state and the last sleep/wake call "
+             "(induction over histories); sleep/wake emit the command followed by 120 ms inside the call; no other operation can emit a "
+             "sleep/reset/page command; the controller never sees two sleep commands < 120 ms apart; init of every generated model establishes "
+             "the invariant. Correspondence: random histories on real displays with a virtual clock.",
+        note="hand-written model of Display::sleep / wake (src/lib.rs); virtual, not wall-clock, time.",
+        tech="machine-checked proof in Coq (invariant by induction over histories) + differential correspondence", ref="DESIGN.md §5 C13"),
+    "C16": dict(
+        text="Coq theorems for all (top, bottom) in u16 x u16, every framebuffer height 1..65535, both build profiles, any driver state: exactly "
+             "one command 0x33 whose three big-endian areas sum to the framebuffer height, top/bottom unchanged when they fit, all-fixed "
+             "fallback otherwise, no panic / wrap (lia); scroll offset passed through big-endian; the reference controller decodes these values. "
+             "Correspondence: boundary grid + random pairs, debug and release.",
+        note="hand-written model of Display::set_vertical_scroll_region / _offset (src/lib.rs) after the fix: commit for F3.",
+        tech="machine-checked proof in Coq (lia over Z) + differential correspondence", ref="DESIGN.md §5 C16"),
+    "C17": dict(
+        text="Coq theorems over the regenerated init programs: with a reset pin the trace is low, >= 10 us, high, then only bus traffic (no further "
+             "pin edge, no software reset); without, software reset is the first bus event, exactly once; refusal sends nothing but the reset. "
+             "Correspondence: real init runs with reset pin, delay source and bus on one timeline, plus post-init programs.",
+        note="Builder::init reset prefix hand-modelled (src/builder.rs:177-189), model programs translated; virtual time for the 10 us pulse.",
+        tech="machine-checked proof in Coq over a translator-regenerated model + differential correspondence", ref="DESIGN.md §5 C17"),
     "C09": dict(
         text="Coq theorems C09_iff / C09_taxonomy / C09_no_panic / C09_no_side_effect over all u16 sizes, offsets and framebuffer sizes in both "
              "build profiles (lia), tied to the code by differential execution of Builder::init (model run by vm_compute) and by running the "
